@@ -203,14 +203,15 @@ DATE_STYLES = ['01/05/2025', 'Jan 05, 2025', '2025-01-05', '05.01.2025', 'Januar
 
 
 class _HdrReader:
-    def __init__(self, hdr, date_style=0):
+    def __init__(self, hdr, date_style=0, base=None):
         self.hdr = hdr
         self.date_style = date_style
+        self.base = base if base is not None else hdr      # concrete names the data cells are chosen from (the affixes do not change a column's kind)
 
     def reader(self, f, *a, **k):
         rows = [list(self.hdr)]
         for n in range(3):          # data rows: a date-looking cell in every column whose header mentions a date, text/amount elsewhere
-            rows.append([DATE_STYLES[self.date_style] if 'date' in h.lower() else ('%d.50' % (n + 1) if any(w in h.lower() for w in ('amount', 'debit', 'charge', 'payment')) else 'TEXT %d' % n) for h in self.hdr])
+            rows.append([DATE_STYLES[self.date_style] if 'date' in h.lower() else ('%d.50' % (n + 1) if any(w in h.lower() for w in ('amount', 'debit', 'charge', 'payment')) else 'TEXT %d' % n) for h in self.base])
         return iter(rows)
 
     def __getattr__(self, n):
@@ -245,7 +246,7 @@ def roundtrip(hi, perm, date_style=0):
         hdr[-1] = p1 + hdr[-1] + s1
         saved = (parsers.__dict__.get('open'), parsers.csv)
         parsers.open = _Open
-        parsers.csv = _HdrReader(hdr, date_style)
+        parsers.csv = _HdrReader(hdr, date_style, base)
         try:
             try:
                 spec = parsers.auto_detect_csv_format('x.csv')
